@@ -129,6 +129,96 @@ def mutated_names(func_node) -> Set[str]:
     return mutated
 
 
+def expand_star_args(func: Func, call: ast.Call) -> ast.Call:
+    """`g(*[h(v) for v in (a, b, c)], z)` -> `g(h(a), h(b), h(c), z)` when the starred sequence is a literal tuple / list or a
+    one-generator comprehension over one (directly, or through locals bound once); otherwise the call is returned unchanged"""
+    if not any(isinstance(a, ast.Starred) for a in call.args):
+        return call
+    sd = single_defs(func)
+
+    def seq(e, depth=8):
+        if depth <= 0:
+            return None
+        if isinstance(e, ast.Name) and e.id in sd:
+            return seq(sd[e.id], depth - 1)
+        if isinstance(e, (ast.Tuple, ast.List)) and not any(isinstance(x, ast.Starred) for x in e.elts):
+            return list(e.elts)
+        if isinstance(e, ast.Call) and isinstance(e.func, ast.Name) and e.func.id in ("list", "tuple") and len(e.args) == 1 and not e.keywords:
+            return seq(e.args[0], depth - 1)
+        if isinstance(e, (ast.ListComp, ast.GeneratorExp)) and len(e.generators) == 1 and not e.generators[0].ifs \
+                and isinstance(e.generators[0].target, ast.Name):
+            base = seq(e.generators[0].iter, depth - 1)
+            if base is None:
+                return None
+            v = e.generators[0].target.id
+            out = []
+            for b in base:
+                class S(ast.NodeTransformer):
+                    def visit_Name(self, n):
+                        return clone(b) if n.id == v and isinstance(n.ctx, ast.Load) else n
+                out.append(ast.fix_missing_locations(S().visit(clone(e.elt))))
+            return out
+        return None
+    new_args = []
+    for a in call.args:
+        if isinstance(a, ast.Starred):
+            xs = seq(a.value)
+            if xs is None:
+                return call
+            new_args += [clone(x) for x in xs]
+        else:
+            new_args.append(a)
+    c = ast.Call(func=call.func, args=new_args, keywords=call.keywords)
+    ast.copy_location(c, call)
+    return c
+
+
+def dict_items(e: ast.AST) -> Optional[Dict[object, ast.AST]]:
+    """{constant key: value node} for a dict display with constant keys or a dict(k=v, ...) call; None otherwise"""
+    if isinstance(e, ast.Dict) and all(k is not None and isinstance(k, ast.Constant) for k in e.keys):
+        return {k.value: v for k, v in zip(e.keys, e.values)}
+    if isinstance(e, ast.Call) and isinstance(e.func, ast.Name) and e.func.id == "dict" and not e.args and all(k.arg for k in e.keywords):
+        return {k.arg: k.value for k in e.keywords}
+    return None
+
+
+def literal_seq(func: Func, e: ast.AST, depth: int = 3) -> Optional[ast.AST]:
+    """the List/Tuple/Set literal that `e` denotes: the literal itself, a local bound once to it, a module-level constant of
+    the function's module, or a class attribute (self.X / Cls.X) bound once in the class body; None otherwise"""
+    if depth <= 0 or e is None:
+        return None
+    if isinstance(e, (ast.List, ast.Tuple, ast.Set)):
+        return e
+    if isinstance(e, ast.Call) and isinstance(e.func, ast.Name) and e.func.id in ("list", "tuple", "set", "frozenset") and len(e.args) == 1 and not e.keywords:
+        return literal_seq(func, e.args[0], depth - 1)
+    if isinstance(e, ast.Name):
+        f = func
+        while f is not None:
+            if e.id in {p.arg for p in f.all_params}:
+                return None
+            binds = assignments(f.node).get(e.id)
+            if binds:
+                d = single_defs(f).get(e.id)
+                return literal_seq(f, d, depth - 1) if d is not None else None
+            f = f.parent
+        d = func.module.assigns.get(e.id)
+        # a module constant must be bound once at module level
+        n = sum(1 for st in func.module.tree.body if isinstance(st, (ast.Assign, ast.AnnAssign, ast.AugAssign))
+                for t in (st.targets if isinstance(st, ast.Assign) else [st.target]) if isinstance(t, ast.Name) and t.id == e.id)
+        return literal_seq(func, d, depth - 1) if d is not None and n == 1 else None
+    if isinstance(e, ast.Attribute) and isinstance(e.value, ast.Name):
+        c = func.cls
+        f = func
+        while c is None and f is not None:
+            f = f.parent
+            c = f.cls if f is not None else None
+        if c is not None and (e.value.id == c.name or (func.self_name and e.value.id == func.self_name) or e.value.id == "cls"):
+            d = c.class_attrs.get(e.attr)
+            if d is not None:
+                return literal_seq(func, d, depth - 1)
+    return None
+
+
 def element_defs(func: Func) -> Dict[str, ast.AST]:
     """Loop variables that range over a list built by a one-generator comprehension: `L = [E for v in I]; for x in L` /
     `for i, x in enumerate(L)` gives x -> E (E keeps the comprehension's own variable v).  Every loop binding x must range
